@@ -24,6 +24,7 @@ GridOf(id, N) ==
   CASE id = "uni"  -> Uniform
     [] id = "geo"  -> Geometric(R(2), N, FALSE)
     [] id = "geoL" -> Geometric(R(2), N, TRUE)
+    [] id = "dens" -> DensityG(Tup([k \in 1..N + 1 |-> Q(k - 1, N)]))       \* DensityGrid with a constant density
     [] id = "fun"  -> FunctionG(CASE N = 1 -> <<Zero, One>>
                                   [] N = 2 -> <<Zero, Q(1, 4), One>>
                                   [] N = 3 -> <<Zero, Q(1, 4), Q(1, 2), One>>
@@ -35,6 +36,7 @@ TBase(id, N) ==
   CASE id = "uni" -> R(N)
     [] id \in {"geo", "geoL"} -> Q(Pow(R(2), N)[1] - 1, 2)
     [] id = "fun" -> R(2)
+    [] id = "dens" -> R(2)
 
 MkProbe(d, s) ==
   LET N == d.method.N
@@ -88,7 +90,7 @@ MaxLen(g) == LET L == Lengths(g) IN CHOOSE x \in {L[i] : i \in 1..Len(L)} : \A j
 
 GridG(s) ==
   LET N == s.N
-      G0 == IF s.grid = "free" THEN FreeG ELSE WithLocal(GridOf(s.grid, N), s.lt0, s.lT)
+      G0 == IF s.grid = "free" THEN WithLocal(FreeG, s.lt0, TRUE) ELSE WithLocal(GridOf(s.grid, N), s.lt0, s.lT)
       T == TBase(IF s.grid = "free" THEN "uni" ELSE s.grid, N)
       decl == IF s.grid = "free"
               THEN CumSum(Zero, Tup([k \in 1..N |-> Mul(T, Q(IF k % 2 = 1 THEN 1 ELSE 2, (3 * N - (N % 2)) \div 2))]), 1)
@@ -154,6 +156,7 @@ ReadsC07(s) ==
      \o <<MRead("C07.b", "mvalue", <<<<Plus(Times(TT, CI(3)), T0)>>>>, ""), MRead("C07.b", "mvalue", <<<<TT, T0>>, <<TF, CI(1)>>>>, "")>>
      \* integrator grid with refine (explicit schemes and exact collocation schemes have a dense output)
      \o (IF s.rhs \in {"R4", "RA"} THEN <<RRead("C07.a", Plus(Times(P(1), X(1)), U(1)), 2), RRead("C07.a", P(Len(Rhs(s.rhs, s.N).params)), 3)>>
+         ELSE IF s.rhs \in {"R6", "RD"} THEN <<RRead("C07.a", Z(1), 2), RRead("C07.a", Plus(Times(Z(Len(Rhs(s.rhs, s.N).algs)), X(1)), Tm), 3)>>      \* algebraic variables between the collocation times
          ELSE IF s.rhs = "RC" THEN <<RRead("C07.a", V(1), 2), RRead("C07.a", V(2), 3), RRead("C07.a", Plus(Times(V(2), X(1)), V(1)), 2)>>
          ELSE <<RRead("C07.a", E1, 2)>>)
      \o <<RRead("C07.a", Plus(Times(X(1), TT), Times(CI(3), T0)), 2)>>      \* horizon symbols inside a refined sample
@@ -310,6 +313,8 @@ MkDeclR(s) ==
                        !.reads = (IF Len(d0.params) > 0 THEN <<RRead("C08.c", Plus(Times(P(1), X(1)), U(1)), s.refine)>> ELSE <<>>) \o
                                  (IF s.rhs = "RC" THEN <<RRead("C08.c", Plus(Times(V(2), X(1)), V(1)), s.refine)>> ELSE <<>>) \o
                                  <<RRead("C08.c", X(1), s.refine), RRead("C08.c", ex, s.refine), RRead("C08.c", Tm, s.refine),
+                                   RRead("C08.c", Times(X(1), Minus(Tm, T0)), s.refine),      \* time since the start of the horizon
+
                                    Read("C08.a", "sample", X(1), "integrator"), Read("C08.a", "sample", X(1), "control"),
                                    SRead("C08.i", X(1), QueryTimes(N, s.M)), SRead("C08.i", Plus(Sq(X(1)), Times(U(1), Tm)), QueryTimes(N, s.M))>>]
   IN WithHorizon(d1, s.hz, IF s.seed % 2 = 0 THEN One ELSE Q(-1, 2), TBase(s.grid, N))
@@ -387,10 +392,12 @@ Space ==
                  seed : {Seed}, cons : {<<>>}, obj : ObjSets] : Wellformed(s)}
 
 SpaceG ==
-  {s \in [meth : {"MS", "SS", "DC"}, N : 1..(IF Thorough THEN 6 ELSE 3), M : 1..(IF Thorough THEN 4 ELSE 2), grid : {"uni", "geo", "geoL", "fun", "free"},
+  {s \in [meth : {"MS", "SS", "DC"}, N : 1..(IF Thorough THEN 6 ELSE 3), M : 1..(IF Thorough THEN 4 ELSE 2), grid : {"uni", "geo", "geoL", "fun", "dens", "free"},
            lt0 : BOOLEAN, lT : BOOLEAN, bnd : {"none", "minlo", "minhi", "maxhi", "maxlo"},
            hz : {"num", "fT", "fb"}, pert : 0..12, seed : {Seed}, cons : {<<>>}, obj : {<<>>}] :
-       /\ (s.grid \in {"fun", "free"} => ~s.lt0 /\ ~s.lT)      \* FunctionGrid cannot be localized; FreeGrid is localized by construction
+       /\ (s.grid \in {"fun", "dens"} => ~s.lt0 /\ ~s.lT)      \* FunctionGrid / DensityGrid cannot be localized
+       /\ (s.grid = "dens" => s.meth = "MS" /\ s.N >= 2)
+       /\ (s.grid = "free" => ~s.lT)                \* FreeGrid has its own interval variables by construction; localize_t0 is an option
        /\ s.pert <= NGridVars(s)
        /\ (s.bnd # "none" => s.hz # "num" \/ s.grid = "free")    \* bounds need a variable to act on
        /\ (s.hz = "num" => s.seed = Seed)
@@ -399,7 +406,7 @@ SpaceG ==
        /\ (s.meth = "DC" => s.N <= 3 /\ s.M <= 2 /\ s.bnd \in {"none", "minhi", "maxlo"} /\ s.pert <= 3)}
 
 Code(s) == s.N + 3 * s.M + s.seed + Len(s.cons) + Len(s.obj)
-           + (CASE s.grid = "uni" -> 0 [] s.grid = "geo" -> 1 [] s.grid = "geoL" -> 2 [] s.grid = "fun" -> 3 [] OTHER -> 4)
+           + (CASE s.grid = "uni" -> 0 [] s.grid = "geo" -> 1 [] s.grid = "geoL" -> 2 [] s.grid = "fun" -> 3 [] s.grid = "dens" -> 5 [] OTHER -> 4)
            + (CASE s.meth = "MS" -> 0 [] s.meth = "DC" -> 9 [] OTHER -> 5)
 
 Init == sc \in {s \in (CASE Family = "C06" -> SpaceG [] Family = "C07" -> SpaceS [] IsX -> SpaceX [] Family = "C08" -> SpaceR [] Family = "C15" -> SpaceInf [] OTHER -> Space) : Code(s) % Parts = Part}
